@@ -8,10 +8,13 @@
     fix_height_and_rebalance and the four rotations exactly as the C++).  The models are tied to the real containers by
     checks/C18.py: after every operation of long random sequential histories the dumped shape of the real structure
     (keys, value presence, stored heights / internal keys / tower heights) must equal the model's shape.
-    Quiescent points after CONCURRENT histories are covered by the harness probes only (checks/C18.py). *)
+    Quiescent points after CONCURRENT histories: for the skip list the order invariant is a theorem for every schedule
+    (C18_skip_sorted_after_concurrent_histories, from the step-grain model of C15); everything else after concurrent
+    histories is covered by the harness probes on the real structures (checks/C18.py). *)
 From Coq Require Import ZArith List Bool.
-From LV Require Import Base.Lin Spec.Specs Model.SkipSeq Model.EllenSeq Model.AvlSeq
+From LV Require Import Base.Lin Base.Conc Spec.Specs Model.SkipSeq Model.EllenSeq Model.AvlSeq
   Proofs.SkipSeqProofs Proofs.EllenSeqProofs Proofs.AvlSeqProofs.
+From LV Require Model.SkipList Proofs.SkipListProofs.
 Import ListNotations.
 Local Open Scope Z_scope.
 
@@ -35,6 +38,21 @@ Theorem C18_skip_quiescent_traversal_exact_seq :
   forall os : list (sop * nat), sk_traverse (sk_run os) = sl_run (map fst os).
 Proof. exact sk_run_traverse. Qed.
 Print Assumptions C18_skip_quiescent_traversal_exact_seq.
+
+(** quiescent points after arbitrary CONCURRENT histories of the skip list: a quiescent point is a reachable
+    configuration of the step-grain model (Model/SkipList.v, tied to cds::intrusive::SkipListSet<HP> by step
+    correspondence), and in EVERY reachable configuration — every schedule — the level-0 list from the head has
+    strictly increasing keys and every upper level is (weakly) sorted *)
+Theorem C18_skip_sorted_after_concurrent_histories :
+  forall (fuel : nat) (nodes : list (nat * nat)) (ths : list (list SkipList.op)) c (l n : nat),
+    SkipListProofs.nodes_ok nodes -> Forall (Forall SkipListProofs.op_ok) ths ->
+    Conc.reach (SkipList.init_cfg fuel nodes ths) c ->
+    SkipListProofs.strictly_inc (map SkipList.key_of (SkipListProofs.chain (Conc.shared c) 0 SkipList.head n)) /\
+    SkipListProofs.weakly_inc (map SkipList.key_of (SkipListProofs.chain (Conc.shared c) l SkipList.head n)).
+Proof.
+  intros. split; [eapply SkipListProofs.skip_level0_sorted_nodup|eapply SkipListProofs.skip_every_level_sorted]; eauto.
+Qed.
+Print Assumptions C18_skip_sorted_after_concurrent_histories.
 
 (** ** EllenBinTree: global leaf-oriented search-tree order (over internal AND leaf keys), sentinels in place, the
     library's check_consistency() holds, in-order leaves = the sorted list = the specification's contents *)
